@@ -21,7 +21,8 @@ RULE = ("generated interface family (as C01, every fifth interface rpc/encoded) 
         ' ; an encoded array in a reply that never declares the schema-instance namespace'
         ' ; xsi:type on members below the top level; the members of repeating groups'
         ' ; an attribute named href; leaves that say they are not nil; envelope attributes on payload leaves'
-        ' ; zones of less than an hour; a reply element carrying an id')
+        ' ; zones of less than an hour; a reply element carrying an id'
+        ' ; attributes named like Python words')
 ASSUMPTIONS = ["alphabet: no empty strings and no content-free objects (suds decodes both to None / '', pinned by "
                "its tests), no mixed content", "the reply writer is iface.write_envelope; expat re-reads every "
                "envelope before it is injected, so the writer's output is well-formed by an independent judge"]
